@@ -134,7 +134,7 @@ def run(repo, cache, coqdir, limit=None):
         name = 'hook' if hook else (feats or 'default')
         out['runs'].append(dict(config=name, exit=p.returncode, records=[' '.join([k] + [str(x) for x in v]) for k, v in recs][-8:]))
         out['cycles'] += d.get('done', [0])[0]
-        out['violations'] += [dict(reason='[%s] %s' % (name, m), record=' '.join([r[0]] + [str(x) for x in r[1]])) for m, r in oracle(recs, bool(feats), limit)]
+        out['violations'] += [dict(reason='[%s] %s' % (name, m), record=' '.join([r[0]] + [str(x) for x in r[1]])) for m, r in oracle(recs, bool(feats), limit or (3000000 if hook else None))]
         if hook:
             if d.get('dump') != d.get('preset') or 'dump' not in d:
                 out['correspondence'].append('after %s real cycles the bookkeeping is %s, the preset hook gives %s' % (d.get('done', ['?'])[0], d.get('dump'), d.get('preset')))
